@@ -3679,3 +3679,67 @@ func ruleLookupFirst(c *Ctx, r *Rep) {
 		r.OK("lookup-first", fd.Pos(), "no name-specific return precedes the scope lookup in compileFunc")
 	}
 }
+
+// ---------------------------------------------------------------------------------------------------------------------
+
+func init() {
+	reg(&Rule{ID: "R-C16-nextok", Props: []string{"C16", "C15"}, Floor: 4,
+		Doc: "the ok result of an iterator's Next() (any, bool) is never discarded: without it \"no value\" is indistinguishable from the value null, so an empty --argjson/--jsonargs text binds null instead of being rejected",
+		Run: ruleNextOK})
+}
+
+func ruleNextOK(c *Ctx, r *Rep) {
+	n := 0
+	for _, p := range []*packages.Package{c.Cli, c.Gojq, c.Cmd} {
+		info := p.TypesInfo
+		for _, fd := range c.Decls(p) {
+			if fd.Body == nil {
+				continue
+			}
+			ast.Inspect(fd.Body, func(q ast.Node) bool {
+				as, ok := q.(*ast.AssignStmt)
+				if !ok || len(as.Lhs) != 2 || len(as.Rhs) != 1 {
+					return true
+				}
+				call, ok := unparen(as.Rhs[0]).(*ast.CallExpr)
+				if !ok {
+					return true
+				}
+				sel, ok := unparen(call.Fun).(*ast.SelectorExpr)
+				if !ok || sel.Sel.Name != "Next" || len(call.Args) != 0 {
+					return true
+				}
+				sig, ok := info.TypeOf(call.Fun).(*types.Signature)
+				if !ok || sig.Results().Len() != 2 || !types.Identical(sig.Results().At(1).Type(), types.Typ[types.Bool]) {
+					return true
+				}
+				n++
+				id, isID := as.Lhs[1].(*ast.Ident)
+				discarded := isID && id.Name == "_"
+				// a slurping iterator yields exactly one value (the array, possibly empty, or an error) on its first call
+				if rid, ok := unparen(sel.X).(*ast.Ident); ok && discarded {
+					robj := info.Uses[rid]
+					ast.Inspect(fd.Body, func(w ast.Node) bool {
+						if d, ok := w.(*ast.AssignStmt); ok && len(d.Lhs) == 1 && len(d.Rhs) == 1 {
+							if l, ok := d.Lhs[0].(*ast.Ident); ok && info.ObjectOf(l) == robj {
+								if dc, ok := unparen(d.Rhs[0]).(*ast.CallExpr); ok && strings.HasSuffix(calleeName(info, dc), "newSlurpInputIter") {
+									discarded = false
+								}
+							}
+						}
+						return true
+					})
+				}
+				fn := declKey(fd)
+				if p == c.Cli && !strings.Contains(fn, ".") {
+					fn = "cli." + fn
+				}
+				r.Check(!discarded, fmt.Sprintf("next:%s:%s", fn, c.Src(call)), as.Pos(), "%s calls %s and keeps the ok result: %v (`gojq -n --argjson x '' '$x'` prints null and exits 0; the text holds no JSON value)", fn, c.Src(call), !discarded)
+				return true
+			})
+		}
+	}
+	if n == 0 {
+		r.Undecided("census", token.NoPos, "no two-result call of an iterator's Next found")
+	}
+}
